@@ -177,13 +177,16 @@ def run(ctx):
         # pushed node links to the observed head
         for a in cas:
             exp = ig.rarg(a.node, 0)
-            ok = False
+            links = []
             for n in ig.ev_nodes(lambda n: n.id in live and n.ev["e"] == "asg" and n.frame.id == 0):
                 lhs = strip_cast(n.ev.get("lhs"))
                 if isinstance(lhs, dict) and lhs.get("k") == "f" and lhs.get("n") == "next":
-                    if pstr(ig.resolve(n.ev["rhs"], n.frame)) == pstr(exp) and ig.dominated_by(a.node, [n]):
-                        ok = True
-            ctx.ob("C08.R2e", inst, ok, a.node.where, "pushed node's next is not the head value the CAS expects")
+                    if pstr(ig.resolve(n.ev["rhs"], n.frame)) == pstr(exp):
+                        links.append(n)
+            ctx.ob("C08.R2e", inst, L.relinked_on_retry(ig, live, a.node, links), a.node.where,
+                   "the pushed node's next must be the head value the CAS expects on *every* attempt: a failed CAS refreshes the "
+                   "expected head, and a retry with the old link drops every callback registered in between (their futures never "
+                   "become ready)")
 
     # ---------------------------------------------------------------- R3 waiters
     waiters = fb.find(pred=lambda f: is_ctx(f) and f.has_cfg() and f.name in ("get", "wait_for"))
